@@ -50,6 +50,13 @@ let () =
         | k :: "evict" :: _ -> apply k (fun _ c st -> st := kstep c !st KEvict)
         | k :: "rm" :: _ -> apply k (fun _ c st -> st := kstep c !st KRm)
         | k :: "drain" :: _ -> apply k (fun _ c st -> st := kstep c !st (KDrain b0))
+        | k :: "flushto" :: b :: _ ->
+            (* the oldest submission of the key is written to block b, indexed, and its batch completes *)
+            let bn = n_of_int (int_of_string b) in
+            apply k (fun _ c st -> st := kstep c (kstep c !st (KFlush bn)) KComplete)
+        | k :: "reclaim" :: b :: _ ->
+            let bn = n_of_int (int_of_string b) in
+            apply k (fun _ c st -> st := kstep c !st (KReclaim bn))
         | k :: "restart" :: _ ->
             apply k (fun _ c st ->
               let s1 = do_close c !st b0 in
@@ -64,8 +71,10 @@ let () =
         | k :: "sload" :: _ ->
             apply k (fun key _ st ->
               let (r, fromk) = disk_lookup2 !st in
-              Printf.printf "%d sload %s\n" key
-                (match r with Some v -> (if fromk then "q" else "d") ^ string_of_int (int_of_n v) | None -> "-"))
+              (* a trailing '*' = the key's flusher pipeline is not empty (a reinsertion is still on its way) *)
+              Printf.printf "%d sload %s%s\n" key
+                (match r with Some v -> (if fromk then "q" else "d") ^ string_of_int (int_of_n v) | None -> "-")
+                (if !st.kq <> [] || !st.ki <> [] then "*" else ""))
         | k :: "crash" :: _ ->
             (* the process dies here; what a reopen that scans the whole device would serve (state unchanged) *)
             apply k (fun key c st ->
